@@ -605,7 +605,7 @@ def genInvalidCases (seed n : Nat) : List String := Id.run do
         if got.isNone then
           let ((fr, cls, must), r) := (do let m ← genFrame true si false; mutateFrame m : G _).run rng
           rng := r
-          if fr.hdr.blockSize * fr.subs.length ≤ 400 then got := some (fr, cls, must)
+          if fr.hdr.blockSize * fr.subs.length ≤ 400 || cls.startsWith "block-size-" then got := some (fr, cls, must)
       match got with
       | none => pure ()
       | some (fr, cls, must) =>
@@ -633,7 +633,7 @@ def genInvalidCases (seed n : Nat) : List String := Id.run do
               let (fr, cls, must) ← mutateFrame m
               pure (si2, fr, cls, must) : G _).run rng
           rng := r
-          if fr.hdr.blockSize * fr.subs.length ≤ 400 then got2 := some (si2, fr, cls, must)
+          if fr.hdr.blockSize * fr.subs.length ≤ 400 || cls.startsWith "block-size-" then got2 := some (si2, fr, cls, must)
       let some (si2, fr, cls, must) := got2 | continue
       let known := i % 4 == 1
       -- every eighth file declares FEWER samples than its (otherwise untouched) frames hold
